@@ -481,3 +481,35 @@ Section Rows.
     y = Finv K (Fsub K c' c) *: (a - a').
   Proof. rewrite !(Gadd_comm _ (_ *: y)). apply ss_row_l. Qed.
 End Rows.
+
+(** Context binding under the V1 framing for contexts of ANY (also different) lengths: if contexts
+    are sequences of labelled messages of a prefix-free schema, and every frame of the protocol is a
+    sequence of [n] messages of the same schema, then one proof accepted under two different contexts
+    yields an explicit collision. *)
+Section ContextV1.
+  Context {K : FieldOps}.
+  Variable H : bytes -> bytes.
+  Variable sfb : bytes -> K.
+  Variable P : proto K.
+  Definition frame_is_messages (sch : schema) (n : nat) : Prop :=
+    forall s a, exists tail, Forall (conforms sch) tail /\ List.length tail = n /\
+      p_public P V1 s ++ msg V1 (str "point") (p_ser_cm P a) = enc_lmsgs V1 tail.
+
+  Theorem context_binding_v1_any_length_ : forall sch n, schema_prefix_free sch -> frame_is_messages sch n ->
+    forall (ms ms' : list lmsg) s s' pi,
+    Forall (conforms sch) ms -> Forall (conforms sch) ms' -> ms <> ms' ->
+    fst (verify H sfb P V1 (enc_lmsgs V1 ms) s pi) = true ->
+    fst (verify H sfb P V1 (enc_lmsgs V1 ms') s' pi) = true ->
+    exists x x', x <> x' /\ H x = H x'.
+  Proof.
+    intros sch n Hpf Hfr ms ms' s s' pi C C' Hne V1 V2.
+    destruct (verify_two_frames_ H sfb P _ _ _ _ _ _ _ V1 V2) as (a & a' & _ & _ & [E|[N E]]); [|eauto].
+    exfalso. apply Hne.
+    destruct (Hfr s a) as (tl & Ct & Lt & Et). destruct (Hfr s' a') as (tl' & Ct' & Lt' & Et').
+    assert (Q : ms ++ tl = ms' ++ tl').
+    { eapply (context_binding_v1_ P sch Hpf ms ms' tl tl' s s' a a'); eauto; apply Forall_app; auto. }
+    assert (Lm : List.length ms = List.length ms').
+    { apply (f_equal (@List.length _)) in Q. rewrite !app_length in Q. lia. }
+    now apply app_eq_len in Q.
+  Qed.
+End ContextV1.
